@@ -153,5 +153,23 @@ def run(chk):
     for f in sub.findings:
         chk.add(Finding("R11-list", f.key.replace("R13-", "R11-list-"), "name lookups of check() rely on ItemList coherence: " + f.msg, f.where, f.detail))
     chk.rule("R11-list", "ItemList pairing/lookup rules (see C13) that the checker's name lookups rely on", sum(r["instances"] for r in sub.rules), floor=50)
+    # ------------------------------------------------------------------ R11-this
+    # THIS.<component> is valid only if *every* structure that contains the typedef has a component of that name
+    nthis = 0
+    root = "checker::is_valid_structure_component"
+    fam = {f: b for f, b in prog.bodies.items() if f == root or f.startswith(root + "::")}
+    if root not in fam:
+        chk.add(Finding("R11-this", "R11-this::anchor", root + " not found"))
+    else:
+        def itercalls(b):
+            return [mir.strip_generics((t.get("res") or "").lstrip("?")).split("::")[-1] for bi, t in b.calls() if "Iterator" in (t.get("res") or "") or "iter::" in (t.get("res") or "")]
+        top = itercalls(fam[root])
+        nthis = 1
+        if top != ["all"]:
+            chk.add(Finding("R11-this", "R11-this::quantifier::" + ",".join(top), "is_valid_structure_component combines the containing structures with %s instead of a single Iterator::all: a THIS. reference that is dangling in one of several containing structures is no longer reported" % (top or "no iterator test"), fam[root].where()))
+        inner = [itercalls(b) for f, b in sorted(fam.items()) if f != root and f.count("::{closure") == 1]
+        if inner != [["any"]]:
+            chk.add(Finding("R11-this", "R11-this::inner::" + str(inner), "per containing structure the component list must be searched with Iterator::any (found %s)" % inner, fam[root].where()))
+    chk.rule("R11-this", "THIS. validity helper: universal over containing structures, existential over their components", nthis, floor=1)
     chk.assumptions += ["not decided: completeness beyond the covered reference sites (the property itself says 'covered reference')",
                         "oracle/check_sites.json and oracle/diag_table.json are reviewed snapshots of semantic facts (site paths, control predicates), not of source text"]
